@@ -17,9 +17,11 @@ RL2 = '{{}, {"r1"}}'
 RL3 = '{{}, {"r1"}, {"r1", "r2"}}'
 
 
-def conf(n, depth, subs, d, rl=RL3, sample=0):
+def conf(n, depth, subs, d, rl=RL3, sample=0, odd=True):
+    # the runs over pairs / triples of directives leave out the placements that cover nothing and switch statements
     return {"MaxStmts": str(n), "MaxDepth": str(depth), "MaxSubs": str(subs), "MaxDir": str(d),
-            "RuleLists": rl, "Sample": str(sample)}
+            "RuleLists": rl, "Sample": str(sample), "Odd": "TRUE" if odd else "FALSE",
+            "Switch": "TRUE" if odd else "FALSE"}
 
 
 def run(ctx):
@@ -44,22 +46,22 @@ def run(ctx):
         b = dict(inp["behaviour"]); b["id"] = rp["case"]["id"]; b["seed"] = inp["seed"]
         p = os.path.join(ctx.work, "replay.jsonl")
         open(p, "w").write(json.dumps(b) + "\n")
-        out = ctx.harness("vhc12", ["c12replay"], stdin_path=p)
+        out = ctx.harness("vhc12", ["c12replay", "-falco", ctx.build_falco(), "-bin-every", "1"], stdin_path=p)
         ctx.add_results(out)
         return
 
     if quick:
-        runs = [("one-directive", conf(2, 2, 2, 1), None),
-                ("two-directives", conf(2, 2, 1, 2), None),
-                ("deep-flat", conf(4, 0, 1, 3, RL2), None),
-                ("sample", conf(4, 2, 2, 3, RL3, 45), None)]
+        runs = [("one-directive", conf(2, 1, 2, 1), None),
+                ("two-directives", conf(2, 1, 1, 2, RL2, odd=False), None),
+                ("deep-flat", conf(3, 0, 1, 3, RL2, odd=False), None),
+                ("two-subs-flat", conf(2, 0, 2, 2, RL2, odd=False), None),
+                ("sample", conf(3, 2, 2, 3, RL3, 55), None)]
     else:
         runs = [("one-directive", conf(3, 2, 2, 1), "coverage"),
-                ("two-directives-2subs", conf(2, 2, 2, 2), None),
-                ("two-directives-nested", conf(3, 2, 1, 2, RL2), None),
-                ("deep-flat", conf(5, 0, 1, 3, RL2), None),
-                ("deep-flat-2subs", conf(3, 0, 2, 3), None),
-                ("sample", conf(4, 2, 2, 4, RL3, 160), None)]
+                ("two-directives-2subs", conf(2, 1, 2, 2, RL2, odd=False), None),
+                ("two-directives-nested", conf(3, 2, 1, 2, RL2, odd=False), None),
+                ("deep-flat", conf(4, 0, 1, 3, RL2, odd=False), None),
+                ("sample", conf(4, 2, 2, 4, RL3, 120), None)]
     beh_files = []
     for tag, defs, cov in runs:
         m = ctx.tlc("Ignore", defines=defs, timeout=3000, tag=tag, coverage=bool(cov))
@@ -69,7 +71,7 @@ def run(ctx):
         if m.behaviours == 0:
             raise MachineryFault("Ignore.tla (%s) emitted no behaviour" % tag)
         if cov:
-            dead = [a for a in m.coverage_zero if a in ("SubOpen", "SubClose", "Stmt", "Trail", "IfOpen", "Else", "Elif", "IfClose", "Place")]
+            dead = [a for a in m.coverage_zero if a in ("SubOpen", "SubSkip", "SubClose", "SwOpen", "SwClose", "Stmt", "Trail", "IfOpen", "Else", "Elif", "IfClose", "Place")]
             if dead:
                 raise MachineryFault("Ignore.tla actions never taken: %s" % dead)
         ctx.notes.setdefault("programs_by_run", {})[tag] = m.behaviours
@@ -100,7 +102,9 @@ def run(ctx):
                 continue
             seen.add(l)
             yield l
-    ress, total = wlint.replay_sharded(ctx, "vhc12", ["c12replay"], lines(), "ig")
+    falco = ctx.build_falco()
+    args = ["c12replay", "-falco", falco, "-bin-every", "40" if quick else "25"] + (["-styles", "alt"] if quick else [])
+    ress, total = wlint.replay_sharded(ctx, "vhc12", args, lines(), "ig", timeout=6000)
     ctx.notes["behaviours_replayed"] = total - 2
     seen_canary = set()
     for rp in ress:
